@@ -19,7 +19,7 @@ INFO = {
     'C07': ('Model/Window', 'Props/C07', 'full API vs model vs pandas on the window'),
     'C08': ('Model/AsyncWindows', 'c08_* of Props/AsyncWindows (index: Props/C08)', 'exact-instant correspondence; window oracle'),
     'C09': ('Model/Kafka', 'Props/C09', 'fake confluent_kafka; crash after every event (thorough)'),
-    'C10': ('Model/Graph (metadata); Proofs/Metadata', 'Props/C10', 'tag lists at every event'),
+    'C10': ('Model/Graph (metadata); Proofs/Metadata; node groups AsyncWindows/AsyncZip/AsyncBuffer', 'Props/C10, Props/AsyncMetadata (c10_)', 'tag lists at every event; batches/tuples with metadata of the asynchronous node groups; metadata oracle on asynchronous pipelines'),
     'C11': ('Model/Rolling', 'Props/C11', 'API vs model vs pandas one-pass; all compositions (thorough)'),
     'C12': ('Model/Resume (generic step functions) + instantiations', 'Props/C12', 'state emitted by pipeline 1 seeds pipeline 2, every cut'),
     'C13': ('Model/RateLimit', 'Props/C13', 'exact delivery instants'),
